@@ -1028,7 +1028,15 @@ class ModelsOps:
         if name == "str":
             if args and getattr(self, "text_templates", False):
                 return self.text_of(args[0], None, node, how="str")
-            return StrV(None, f"str({args[0]!r})" if args else "str")
+            sv = StrV(None, f"str({args[0]!r})" if args else "str")
+            if args and isinstance(args[0], TermV):
+                # the text of a term that is not empty is not empty
+                try:
+                    if not self.term_is_empty(args[0], node):
+                        sv.nonempty = True
+                except Exception:       # noqa: BLE001
+                    pass
+            return sv
         if name == "format" and args and getattr(self, "text_templates", False):
             return self.text_of(args[0], args[1] if len(args) > 1 else StrV(""), node)
         if name == "int":
